@@ -1,5 +1,5 @@
 import Proofs.Lemmas.ForkChoicePrune
-import Proofs.Lemmas.ForkChoiceInv2
+import Proofs.Lemmas.ForkChoiceInv2Base
 /-!
 # Fork choice: the bundled invariants survive `ProtoArray.OnPrune`
 
